@@ -5,21 +5,22 @@ package core
 
 import (
 	"encoding/binary"
-	"flag"
-	"strconv"
 	"encoding/hex"
 	"encoding/json"
+	"flag"
 	"fmt"
 	"hash/fnv"
 	"os"
 	"path/filepath"
 	"runtime"
 	"sort"
+	"strconv"
 	"strings"
 	"sync"
 	"sync/atomic"
-	"time"
+	"syscall"
 	"testing"
+	"time"
 	"unicode/utf8"
 
 	"pgregory.net/rapid"
@@ -341,15 +342,28 @@ func StartWatchdog(limit time.Duration) {
 
 func startWatchdog(limit time.Duration) {
 	go func() {
+		var seen *watched // the case the watchdog saw at its last tick, and the CPU time consumed then
+		var seenCPU time.Duration
 		for {
 			time.Sleep(time.Second)
 			w := current.Load()
-			if w == nil || time.Since(w.start) < limit {
+			if w != seen {
+				seen, seenCPU = w, cpuTime()
+			}
+			if w == nil {
+				continue
+			}
+			// Wall-clock time alone says little on a loaded machine (a starved process is not a hung
+			// one): a case is a suspected hang when it has been running for the limit AND this process
+			// burnt at least half the limit of CPU time meanwhile (it spins), or when it has been
+			// running for ten times the limit whatever it consumed (it is blocked).
+			wall := time.Since(w.start)
+			if wall < limit || (cpuTime()-seenCPU < limit/2 && wall < 10*limit) {
 				continue
 			}
 			raw, _ := json.Marshal(w.c)
 			mu.Lock()
-			stats.Hang = &Violation{Check: w.id, Message: fmt.Sprintf("did not return within %v (suspected hang)", limit), Case: raw}
+			stats.Hang = &Violation{Check: w.id, Message: fmt.Sprintf("did not return within %v (suspected hang; %v of CPU time used meanwhile)", wall.Round(time.Second), (cpuTime() - seenCPU).Round(time.Second)), Case: raw}
 			mu.Unlock()
 			Flush(false)
 			os.Exit(3)
@@ -357,8 +371,19 @@ func startWatchdog(limit time.Duration) {
 	}()
 }
 
+// cpuTime is the CPU time (user + system) this process has consumed so far.
+func cpuTime() time.Duration {
+	var ru syscall.Rusage
+	if err := syscall.Getrusage(syscall.RUSAGE_SELF, &ru); err != nil {
+		return 0
+	}
+	return time.Duration(ru.Utime.Nano() + ru.Stime.Nano())
+}
+
 // Watch publishes the case about to run to the watchdog (for loops that do not go through Run).
-func Watch(id string, c interface{}) { current.Store(&watched{id: id, c: c, start: time.Now()}) }
+func Watch(id string, c interface{}) {
+	current.Store(&watched{id: id, c: c, start: time.Now()})
+}
 
 // Unwatch clears it.
 func Unwatch() { current.Store(nil) }
